@@ -209,19 +209,26 @@ func staffDerived(level int32) (int64, float64, time.Time) {
 	return int64(level)*1000 + 7, float64(level) + 0.5, time.Unix(946684800+int64(level)*86400, 0).UTC()
 }
 
-type pxStrategy struct{ people *PeopleStore }
+type pxStrategy struct {
+	people    *PeopleStore
+	noSponsor bool // schema variant "px declares nothing of its own": the sponsor field does not exist either
+}
 
 func (s *pxStrategy) NewEntity() *PX { return &PX{} }
 func (s *pxStrategy) FillEntity(e *PX, b *boltz.TypedBucket) {
 	_, err := s.people.LoadEntity(b.Tx(), e.Id, &e.Person)
 	b.SetError(err)
 	e.Memo = b.GetStringWithDefault("memo", "")
-	e.Sponsor = b.GetString("sponsor")
+	if !s.noSponsor {
+		e.Sponsor = b.GetString("sponsor")
+	}
 }
 func (s *pxStrategy) PersistEntity(e *PX, ctx *boltz.PersistContext) {
 	s.people.GetEntityStrategy().PersistEntity(&e.Person, ctx.GetParentContext())
 	ctx.SetString("memo", e.Memo)
-	ctx.SetStringP("sponsor", e.Sponsor)
+	if !s.noSponsor {
+		ctx.SetStringP("sponsor", e.Sponsor)
+	}
 }
 
 type badgeStrategy struct{}
@@ -457,7 +464,7 @@ func NewStores(variant int) *Stores {
 	s.Staff.InitImpl(s.Staff)
 
 	s.PX = &PXStore{BaseStore: boltz.NewBaseStore(boltz.StoreDefinition[*PX]{
-		EntityStrategy: &pxStrategy{people: s.People}, BasePath: []string{StPX}, Parent: s.People,
+		EntityStrategy: &pxStrategy{people: s.People, noSponsor: pxMode(variant) == 2}, BasePath: []string{StPX}, Parent: s.People,
 		ParentMapper: personParentMapper, EntityNotFoundF: notFoundF(StPeople)}).Extended()}
 	s.PX.InitImpl(s.PX)
 
@@ -602,7 +609,9 @@ func NewStores(variant int) *Stores {
 	// sibling child stores wiring a field of the SAME name to the same target (two constraints that differ in nothing
 	// but the store they belong to)
 	st.AddFkConstraint(st.AddFkSymbol("sponsor", g), true, boltz.CascadeNone)
-	px.AddFkConstraint(px.AddFkSymbol("sponsor", g), true, boltz.CascadeNone)
+	if pxMode(variant) != 2 {
+		px.AddFkConstraint(px.AddFkSymbol("sponsor", g), true, boltz.CascadeNone)
+	}
 
 	// a link collection one side of which lives in the child store: staff.leading <-> groups.leads
 	st.symLeading = st.AddFkSetSymbol("leading", g)
